@@ -52,7 +52,7 @@ def _all(tier):
         out.append({"circuit": {"kind": "pipe", "base": b, "ops": [["multiply_other"], ["conjugate"], ["conjugate"]]}})
     for b in bases[:6]:
         out.append({"circuit": {"kind": "pipe", "base": b, "ops": [["conjugate"], ["integrate", None]]}})
-        out.append({"circuit": {"kind": "pipe", "base": b, "ops": [["square"], ["conjugate"], ["integrate", [0, 2]]]}})
+        out.append({"circuit": {"kind": "pipe", "base": b, "ops": [["square"], ["conjugate"], ["integrate", [b["ids"][0], b["ids"][2]]]]}})
         out.append({"circuit": {"kind": "pipe", "base": b, "ops": [["multiply_conj"]]}})
     out.append({"circuit": {"kind": "pipe", "base": bases[0], "ops": [["evidence", {"1": 2}], ["conjugate"]]}})
     return out
